@@ -74,6 +74,9 @@ def _corpus_programs():
                                          F(4, "A", ["list", False, "obj", [["obj", [F(5, "D", I(5))]], ["obj", [F(5, "D", ["exn", 4], sh="i")]]]])]})
     ps.append({"op": "query", "fields": [F(0, "V", ["obj", [F(1, "V", I(1)), F(2, "C", I(2), lv=1)]]), F(3, "V", ["null"], nn=True, sh="in")],
                "mw": True})
+    # the family of resolver-error classes (domain constructors, keyword-only, shared instance)
+    ps.append({"op": "query", "fields": [F(k, m, ["err", k], sh="i") for k, m in enumerate(["S", "P", "C", "D", "A", "C"])]
+                                        + [F(6, "C", ["err", 5], sh="i"), F(7, "C", I(7))]})
     return ps
 
 
@@ -151,7 +154,7 @@ def eager_programs(quick, op="query"):
     calls completes before submit returns x every completion order of the others): fixed
     shapes with int / ResolverError / RuntimeError at every deferred position"""
     import itertools
-    leafs = [["int", 5], ["err"], ["exn", 3]]
+    leafs = [["int", 5], ["err", 3], ["exn", 3]]
 
     def leaf(k, b, m="C", lv=0):
         f = F(k, m, list(b), lv=lv)
